@@ -1402,6 +1402,20 @@ func (e *Engine) execBinOp(fr *Frame, st *State, v *ssa.BinOp) SV {
 			return &Sc{fmt.Sprintf("(not (= %s %s))", x, y)}
 		}
 	case *types.Pointer, *types.Map, *types.Chan, *types.Signature:
+		// the address of a field or of a local is never nil
+		interior := func(a, b ssa.Value) bool {
+			if !isNilConst(b) {
+				return false
+			}
+			p, ok := e.val(fr, a).(*PtrSV)
+			return ok && (p.Kind == pkLocal || (p.Kind == pkHeap || p.Kind == pkGlobal) && len(p.Path) > 0)
+		}
+		if interior(v.X, v.Y) || interior(v.Y, v.X) {
+			if v.Op == token.EQL {
+				return &Sc{"false"}
+			}
+			return &Sc{"true"}
+		}
 		x, y := e.scalar(fr, v.X), e.scalar(fr, v.Y)
 		if v.Op == token.EQL {
 			return &Sc{fmt.Sprintf("(= %s %s)", x, y)}
